@@ -260,6 +260,70 @@ def correspond(ctx, scale):
         failures.append({'key': f'process-group:spawn:{type(ex).__name__}', 'what': f'2-process gloo run failed: {str(ex)[:300]}', 'case': dict(distributed=True)})
     finally:
         shutil.rmtree(dtmp, ignore_errors=True)
+    # RandomProjectionQuantizer with PASS-THROUGH keyword arguments of the inner VectorQuantize (round 10, seed C20-j): whatever the inner layer is configured
+    # to do in training (dead-code expiry, stochastic sampling, orthogonal regularisation - which makes the cosine codebook a Parameter -, an in-place
+    # codebook optimiser, decay, commitment settings), forward calls of the wrapper in either mode leave projection and codebook bit-identical
+    from functools import partial as _partial
+    from torch.optim import SGD as _SGD, Adam as _Adam
+    rpq_opts = dict(
+        expiry=[{}, dict(threshold_ema_dead_code=2)],
+        sampling=[{}, dict(stochastic_sample_codes=True, sample_codebook_temp=0.5)],
+        orth=[{}, dict(orthogonal_reg_weight=0.5), dict(orthogonal_reg_weight=0.5, orthogonal_reg_max_codes=3)],
+        inplace=[{}, dict(in_place_codebook_optimizer=_partial(_SGD, lr=1.0)), dict(in_place_codebook_optimizer=_partial(_Adam, lr=0.1))],
+        misc=[{}, dict(decay=0.5, commitment_weight=0.25), dict(commitment_use_cross_entropy_loss=True), dict(ema_update=False)],
+    )
+    combos = []
+    names_ = list(rpq_opts)
+    for ci_ in range(36):
+        # mixed radix over the option lists, cycled so that every pair of values occurs
+        c_ = {}
+        r_ = ci_
+        for nm_ in names_:
+            c_[nm_] = rpq_opts[nm_][(r_ + (ci_ // 7 if nm_ in ('orth', 'misc') else 0)) % len(rpq_opts[nm_])]
+            r_ //= len(rpq_opts[nm_])
+        combos.append(c_)
+    dist['rpq_passthrough_kwargs'] = 0
+    dist['rpq_passthrough_rejected'] = 0
+    for ci_, c_ in enumerate(combos):
+        kw_ = {}
+        for v_ in c_.values():
+            kw_.update(v_)
+        H_ = 1 + ci_ % 2
+        try:
+            torch.manual_seed(7700 + ci_)
+            rpq_ = RandomProjectionQuantizer(dim=5, codebook_size=6, codebook_dim=3, num_codebooks=H_, norm=(ci_ % 3 != 0), **kw_)
+            probe_ = torch.randn(2, 7, 5)
+            rpq_.eval()
+            first_ = rpq_(probe_).clone()
+        except Exception:
+            dist['rpq_passthrough_rejected'] += 1
+            continue
+        snap_ = {k_: v_.detach().clone() for k_, v_ in list(rpq_.named_buffers()) + list(rpq_.named_parameters())}
+        desc_ = {k_: (v_ if not callable(v_) else getattr(getattr(v_, 'func', v_), '__name__', 'opt')) for k_, v_ in kw_.items()}
+        hist_ = []
+        try:
+            for step_ in range(8):
+                mode_train = (step_ % 3 != 2)
+                rpq_.train(mode_train)
+                xb_ = torch.randn(3, 6, 5) * [1.0, 30.0, 0.01][step_ % 3]
+                if step_ % 2 == 0:
+                    rpq_(xb_)
+                    hist_.append(('train' if mode_train else 'eval') + '-lookup')
+                else:
+                    tgt_ = torch.randint(0, 6, (3, 6, H_) if H_ > 1 else (3, 6))
+                    rpq_(xb_, indices=tgt_)
+                    hist_.append(('train' if mode_train else 'eval') + '-loss-call')
+                evaluations += 1
+                changed_ = [k_ for k_, v_ in list(rpq_.named_buffers()) + list(rpq_.named_parameters()) if k_ in snap_ and not torch.equal(torch.nan_to_num(v_.detach()), torch.nan_to_num(snap_[k_]))]
+                again_ = rpq_(probe_)
+                if changed_ or not torch.equal(again_, first_):
+                    failures.append({'key': f'rpq-passthrough:{"+".join(sorted(desc_)) or "default"}:changed', 'what': f'RandomProjectionQuantizer(num_codebooks={H_}, {desc_}) after forward calls {hist_}: '
+                                     f'tensors changed {changed_}; equal input gets equal indices: {bool(torch.equal(again_, first_))}', 'case': dict(kind='rpq', kwargs=str(desc_), ops=hist_)})
+                    break
+            dist['rpq_passthrough_kwargs'] += 1
+            nontrivial += 1
+        except Exception as ex:
+            failures.append({'key': f'rpq-passthrough:{"+".join(sorted(desc_)) or "default"}:exception:{type(ex).__name__}', 'what': f'RandomProjectionQuantizer({desc_}) history {hist_}: {ex!r}', 'case': dict(kind='rpq', kwargs=str(desc_), ops=hist_)})
     # inventory tie: live registries vs the generated inventories, evaluated in Coq
     live = [('inv_simvq', SimVQ(dim=4, codebook_size=5)), ('inv_rpq', RandomProjectionQuantizer(dim=4, codebook_size=5, codebook_dim=2)),
             ('inv_fsq', FSQ([3, 4])), ('inv_lfq', LFQ(dim=3, codebook_size=8)), ('inv_rfsq', ResidualFSQ(levels=[3, 3], num_quantizers=2)),
